@@ -3,6 +3,7 @@
 from __future__ import annotations
 
 import ast
+import re
 
 from ..astq import attr_stores, body_walk, dotted, src, walk_local, norm_stmt, fn_calls
 from ..cfg import CFG
@@ -424,6 +425,45 @@ def r4_observer_survives(chk: Check):
             else:
                 chk.ok(chk.fkey(f, "no explicit raise escapes"), chk.loc(f.module, f.node))
     chk.min_instances(n, 3, "watchdog handler methods")
+    # check-then-act on the shared cache: a keyed read / removal must be decided by a membership test made under the same lock
+    # (release() and the other handlers drop entries concurrently) -- or sit in a try that handles the KeyError
+    m = 0
+    for qual in ("CounterToken.on_deleted", "CounterToken.on_created", "CounterToken.on_modified"):
+        f = tree.func("tokens", qual)
+        g = CFG(f.node)
+        for nd in g.live:
+            if nd.ast is None or nd.kind not in ("stmt", "test"):
+                continue
+            keyed = []
+            for x in walk_local(nd.ast):
+                if isinstance(x, ast.Subscript) and src(x.value) == "self.cache" and isinstance(x.ctx, (ast.Load, ast.Del)):
+                    keyed.append((x, src(x.slice)))
+                elif isinstance(x, ast.Call) and src(x.func) == "self.cache.pop" and len(x.args) == 1:
+                    keyed.append((x, src(x.args[0])))
+            for x, key in keyed:
+                m += 1
+                locked_tests = [t for t, pol in g.guards(nd) if t.kind == "test" and pol is True and src(t.ast) == f"{key} in self.cache"
+                                and "self.lock" in _withs(t.ast)]
+                in_try = any(isinstance(a, ast.Try) and any(h.type is None or src(h.type) in ("KeyError", "Exception", "LookupError") for h in a.handlers) and _in_body(a, x) for a in _ancestors(x))
+                chk.require(bool(locked_tests) and "self.lock" in _withs(x) or in_try, chk.fkey(f, "keyed cache access decided under the lock"),
+                            f"`{src(x)}` in `{f.qual}` is not decided by a `{key} in self.cache` test made under self.lock: an entry dropped by a concurrent release() raises KeyError on the "
+                            "watchdog thread, which dies -- this process never sees another release", chk.loc(f.module, x))
+    chk.min_instances(m, 1, "keyed accesses to the token cache in event handlers")
+
+
+def _ancestors(node):
+    p = getattr(node, "_parent", None)
+    while p is not None:
+        yield p
+        p = getattr(p, "_parent", None)
+
+
+def _withs(node):
+    return {src(i.context_expr) for a in _ancestors(node) if isinstance(a, (ast.With, ast.AsyncWith)) for i in a.items}
+
+
+def _in_body(try_node, x):
+    return any(x is y for st in try_node.body for y in ast.walk(st))
 
 
 def r5_wakeup_path(chk: Check):
@@ -442,6 +482,26 @@ def r5_wakeup_path(chk: Check):
             extra = [c for c in conds if c[0] not in ("name in self.cache", "0 < self.available")]
             ok = ok and not extra
         chk.require(ok, chk.fkey(f, "notify condition"), "on_deleted notifies under extra conditions", chk.loc(f.module, f.node))
+    # aio_notify posts to the loop of *every* dependent ever registered (also of finished experiments): the posting call must not be able to
+    # fail half-way -- nobody closes an event loop (call_soon_threadsafe raises on a closed loop), or the post is protected per dependent
+    an = tree.func("tokens", "Token.aio_notify")
+    posts = [c for c in fn_calls(an.node) if tail(c) in ("call_soon_threadsafe", "call_soon", "run_coroutine_threadsafe")]
+    chk.require(len(posts) >= 1, chk.fkey(an, "posts to the dependents' loop"), "Token.aio_notify must post the re-check to each dependent's event loop", chk.loc(an.module, an.node))
+    protected = bool(posts) and all(any(isinstance(a, ast.Try) and any(h.type is None or src(h.type) in ("RuntimeError", "Exception") for h in a.handlers) and _in_body(a, c)
+                                        and any(isinstance(b, (ast.For, ast.AsyncFor)) for b in _ancestors(a)) for a in _ancestors(c)) for c in posts)
+    closers = []
+    for ff in tree.nontest_funcs():
+        if not (ff.module.name.startswith("scheduler") or ff.module.name in ("tokens", "locking", "ipc")):
+            continue
+        for c in fn_calls(ff.node):
+            if tail(c) == "close" and isinstance(c.func, ast.Attribute) and re.search(r"(^|[._])loop$", src(c.func.value)):
+                closers.append((ff, c))
+    for ff, c in closers:
+        chk.require(protected, chk.fkey(ff, "closes an event loop"),
+                    f"`{src(c)}` in `{ff.qual}` closes an event loop that token dependencies of earlier experiments still reference: Token.aio_notify raises on the first such dependent, "
+                    "the remaining waiting jobs are never re-checked and the exception escapes release()", chk.loc(ff.module, c))
+    if not closers:
+        chk.ok(chk.fkey(an, "no event loop is ever closed"), chk.loc(an.module, an.node))
     # Dependency.check -> dependencychanged -> _readyEvent.set
     ck = tree.func("scheduler.dependencies", "Dependency.check")
     chk.require(any(tail(c) == "dependencychanged" for c in fn_calls(ck.node)), chk.fkey(ck, "check -> dependencychanged"), "Dependency.check must call the target's dependencychanged", chk.loc(ck.module, ck.node))
